@@ -24,7 +24,7 @@ CRASHY = False          # every Application run already happens in its own forke
 RUN_TIMEOUT = 600
 NO_SHRINK = {'problem', 'nx', 'steps'}
 
-PROBLEMS = {'drop': [6, 8, 10], 'cavity': [5, 6, 8], 'tg': [6, 8, 10], 'sod': [20, 40, 60]}
+PROBLEMS = {'drop': [6, 8, 10], 'cavity': [5, 6, 8], 'tg': [6, 8, 10], 'sod': [20, 40, 60], 'adapth': [8, 10, 12]}
 NNPS = ['ll', 'box', 'sh', 'esh', 'ci', 'sfc', 'tree', 'comp_tree', 'strat_hash', 'strat_sfc']
 # the classes that implement get_spatially_ordered_indices; the others refuse --reorder-freq with NotImplementedError
 REORDER = {'ll', 'box', 'ci', 'sfc', 'strat_sfc', 'tree', 'comp_tree'}
@@ -32,7 +32,7 @@ STATE_PROPS = ['x', 'y', 'z', 'u', 'v', 'w', 'rho', 'p', 'h', 'm', 'e']
 
 PROPS = {
     'C05': dict(
-        rule=('one run = one shipped problem (free-surface elliptical drop / wall-bounded cavity with two arrays / periodic Taylor-Green / 1-D shock tube in a mirror domain with variable h) '
+        rule=('one run = one shipped problem (free-surface elliptical drop / wall-bounded cavity with two arrays / periodic Taylor-Green / 1-D shock tube in a mirror domain with variable h / a free-surface block whose h changes inside the evaluation, nested update_nnps groups) '
               'run through Application.run with a drawn configuration (--nnps and its knobs, --cache-nnps, --sort-gids, --reorder-freq, '
               'valid or invalid gids, and the schedule: serial, real OpenMP with 1-16 threads, or the simulated scheduler with k threads, '
               'drawn chunking / chunk-to-thread assignment / global execution order) compared with a baseline run (ll, no cache, serial, '
@@ -79,8 +79,8 @@ def _child_run(cfg):
     from vsim import omp_sim
     threads = max(1, min(16, int(cfg.get('threads', 1))))
     set_number_of_threads(threads if kind in ('omp', 'sim') else 1)
-    app = P.make_app(cfg['problem'], bool(cfg.get('valid_gids')))
     argv = P.problem_args(cfg['problem'], int(cfg['nx']))
+    app = P.make_app(cfg['problem'], bool(cfg.get('valid_gids')))
     argv += ['--max-steps', str(int(cfg['steps'])), '--disable-output', '--directory', _outdir(), '--quiet',
              '--nnps', cfg.get('nnps', 'll')]
     argv += ['--openmp'] if kind == 'omp' else ['--no-openmp']
@@ -234,7 +234,7 @@ def prepare(prop, tier):
 
 
 def gen(t, prop, tier):
-    problem = t.wchoice([('drop', 3), ('cavity', 4), ('tg', 4), ('sod', 3)])
+    problem = t.wchoice([('drop', 3), ('cavity', 4), ('tg', 4), ('sod', 3), ('adapth', 3)])
     nx = t.choice(PROBLEMS[problem])
     steps = t.choice([2, 3, 5, 8])
     nnps = t.choice(NNPS)
